@@ -235,6 +235,8 @@ def ws_programs():
     progs.append(Prog('ws/cond-neg', [T('a', ''), Cond(True, [('A', [T('x', '')])], None, end_sep='\n', compact=True), T('b', '\n')], ['A']))
     progs.append(Prog('ws/cond-spaced', [T('a', ' '), Cond(False, [('A', [T('x', ' ')]), ('B', [T('w', ' ')])], [T('y', ' ')], end_sep=' ', compact=True), T('b', '\n')], ['A', 'B']))
     progs.append(Prog('ws/undef', [T('a', ''), Undef('A'), T('b', ' '), UndefAll(), T('c', '\n')], ['A']))
+    # the white space after the usage of a macro that expands to nothing is still there
+    progs.append(Prog('ws/use-nobody', [Def('E'), T('a', ''), Use('E', None, ' '), T('b', ''), Use('E', None, '\n'), T('c', ' '), Use('E', None, ''), T(';', '\n')], ['A']))
     progs.append(Prog('ws/kept', [T('a', ''), Kept('`resetall'), T('b', '\n')], ['A']))
     return progs
 
